@@ -204,11 +204,38 @@ func (w *world) closeAsync() {
 	w.closeCall = w.stamp()
 	w.closeT = time.Now()
 	w.mu.Unlock()
+	// two overlapping Close calls; each one looks, right after it returned, for goroutines of the
+	// batcher (forwarders, the delivery loop) that are still parked inside it
+	const nclose = 2
+	var left [nclose][]string
+	var wg sync.WaitGroup
+	for i := 0; i < nclose; i++ {
+		wg.Add(1)
+		go func(i int) {
+			defer wg.Done()
+			w.b.Close()
+			w.mu.Lock()
+			if w.closeRet == 0 {
+				w.closeRet = w.stamp()
+			}
+			w.mu.Unlock()
+			for _, g := range mon.BlockedIn("events/batcher.(*Batcher", "events/queue.(*Processor") {
+				kf := g.KitFrame()
+				if strings.HasSuffix(kf, ".Close") || strings.HasSuffix(kf, ".Subscribe") || strings.HasSuffix(kf, ".Batch") || strings.HasSuffix(kf, ".Enqueue") {
+					continue // a client call in progress (the other Close, a racing Subscribe), not a helper
+				}
+				left[i] = append(left[i], "["+g.State+"] "+kf)
+			}
+		}(i)
+	}
 	go func() {
-		w.b.Close()
-		w.mu.Lock()
-		w.closeRet = w.stamp()
-		w.mu.Unlock()
+		wg.Wait()
+		for i := range left {
+			if len(left[i]) > 0 {
+				w.violation("close-returned-with-goroutines-parked-inside", fmt.Sprintf("a Close call returned while goroutines of the batcher were still parked inside it: %v", left[i]))
+			}
+		}
+		rec.Count("close.overlapping_calls_checked", nclose)
 		close(w.closeDone)
 	}()
 }
@@ -443,7 +470,7 @@ func TestCheck(t *testing.T) {
 	rec = mon.Open("C10")
 	defer rec.Close()
 	rec.Note("rule", "a case is one history against the real Batcher in a synctest bubble: (lockstep) seeded Batch / sleep / Subscribe / cancel / Close sequences on a 1 ms grid with prompt subscribers, judged against the debounce reference including exact delivery instants; (stall) a never-reading subscriber with 52-70 events outstanding (past the 50-slot buffer) while further Batch / Subscribe / Close calls are made, resolved by cancelling or unleashing it; (directed) the delivery loop parked at fanout.send or a forwarder at fwd.exit while cancel / Close / Subscribe / Batch are issued. Non-trivial = at least one value was delivered to a subscriber; distinct = distinct step list.")
-	rec.Note("require", []string{"park.fanout.send", "park.fwd.exit", "park.queue.loop.fired", "park.queue.exec.popped", "judged", "stall.fanout_blocked", "stall.resolved_by_cancel", "stall.resolved_by_unleash", "delivered", "closed_channels_seen"})
+	rec.Note("require", []string{"park.fanout.send", "park.fwd.exit", "park.queue.loop.fired", "park.queue.exec.popped", "judged", "stall.fanout_blocked", "stall.resolved_by_cancel", "stall.resolved_by_unleash", "delivered", "closed_channels_seen", "close.overlapping_calls_checked"})
 	ps := plans()
 	rec.Planned(len(ps))
 	for idx, pl := range ps {
